@@ -184,7 +184,7 @@ func sessionFamilies(oracles []string, d, dUnion int) []explore.Family {
 }
 
 func C01(tier string) int {
-	d, du, budget := 4, 2, 150*time.Second
+	d, du, budget := 4, 2, 300*time.Second
 	if tier == "thorough" {
 		d, du, budget = 6, 4, 25*time.Minute
 	}
